@@ -262,6 +262,7 @@ contract(
     prop='C14',
     params=dict(self=Inst('bumble.crypto.builtin:_CBC'), plaintext=Bytes),
     requires=lambda self, plaintext: [len(self._aes.k) == 16, len(plaintext) % 16 == 0],
+    returns=Bytes,
     ensures=cbc_encrypt_post,
     modifies=['self._last_cipher_block'],
     invariants={0: cbc_encrypt_inv},
